@@ -75,6 +75,11 @@ def templates(g):
                            assign(("var", "i"), "+=", ("math", mint(1))), block([])), g.mk()], ("expr", emath(mvar("i")))))
     out.append(block([sfor(assign(("var", "i"), "=", ("math", mint(0))), mk_ecmp("<", emath(mvar("i")), emath(mint(10001))),
                            assign(("var", "i"), "+=", ("math", mint(1))), block([])), g.mk()]))
+    # the cap also cuts off loops whose every iteration ends in continue / whose body is a nested loop
+    out.append(block([sfor(assign(("var", "i"), "=", ("math", mint(0))), emath(matom(const(kbool(True)))),
+                           assign(("var", "i"), "+=", ("math", mint(1))), block([scontinue()])), g.mk()]))
+    out.append(block([sfor(assign(("var", "i"), "=", ("math", mint(0))), mk_ecmp(">=", emath(mvar("i")), emath(mint(0))),
+                           assign(("var", "i"), "+=", ("math", mint(1))), block([sif(mk_ecmp(">=", emath(mvar("i")), emath(mint(0))), block([scontinue()])), g.mk()])), g.mk()]))
     # compound assignment on every target kind
     for tg in [("var", "x"), ("var", "h.I64"), ("var", "h.Sub.N"), ("var", "h.PSub.N"), ("map", mapvar("mp", ("str", "a"))),
                ("map", mapvar("h.M", ("str", "k"))), ("map", mapvar("sq", ("int", 1))), ("map", mapvar("h.SL", ("int", 2)))]:
